@@ -109,10 +109,12 @@ theorem visitVarDefPar_eq (c : Cfg) (v : VarDef) (st : St) : visitVarDefPar ente
   rw [visitVarDefPar, visitVarDef]
   refine visitNodePar_eq c _ _ _ (fun st => ?_) st
   cases v.default with
-  | none => exact visitNodePar_eq c _ _ _ (fun _ => rfl) _
+  | none =>
+    simp only [visitDirectivesPar_eq]
+    exact congrArg _ (visitNodePar_eq c _ _ _ (fun _ => rfl) _)
   | some dv =>
-    simp only [visitValuePar_eq]
-    exact visitNodePar_eq c _ _ _ (fun _ => rfl) _
+    simp only [visitValuePar_eq, visitDirectivesPar_eq]
+    exact congrArg _ (visitNodePar_eq c _ _ _ (fun _ => rfl) _)
 
 theorem visitDefPar_eq (c : Cfg) (d : Def) (st : St) : visitDefPar enterRule c d st = visitDef c d st := by
   cases d with
